@@ -16,7 +16,8 @@
 (*    wf   well-formed pipelines (exactness asserted on each as well)      *)
 (*    all  ALL byte strings over Alpha up to MaxLen                        *)
 (*    mut  every single-point mutation of a set of well-formed streams     *)
-(*    len  declared lengths -2 -1 0 1 2 2^31 2^63-1 2^63 in both headers   *)
+(*    len  declared lengths -2 -1 0 1 2 2^31 2^63-1 2^63 2^64-1..2^64+2    *)
+(*         10^20 in both headers                                             *)
 (***************************************************************************)
 EXTENDS RespParser, Json
 
@@ -61,7 +62,14 @@ DeclLens == { <<45,50>>, <<45,49>>, <<48>>, <<49>>, <<50>>,
               <<50,49,52,55,52,56,51,54,52,56>>,                                   \* 2^31
               <<57,50,50,51,51,55,50,48,51,54,56,53,52,55,55,53,56,48,55>>,        \* 2^63-1
               <<57,50,50,51,51,55,50,48,51,54,56,53,52,55,55,53,56,48,56>>,        \* 2^63
-              <<45,57,50,50,51,51,55,50,48,51,54,56,53,52,55,55,53,56,48,56>> }    \* -2^63
+              <<45,57,50,50,51,51,55,50,48,51,54,56,53,52,55,55,53,56,48,56>>,     \* -2^63
+              \* lengths that do not fit 64 bits and are congruent to -1, 0, 1, 2 modulo 2^64: a length read without an overflow
+              \* check would turn them into a null, an empty, a 1- or a 2-byte item that the rest of the stream then satisfies
+              <<49,56,52,52,54,55,52,52,48,55,51,55,48,57,53,53,49,54,49,53>>,     \* 2^64-1
+              <<49,56,52,52,54,55,52,52,48,55,51,55,48,57,53,53,49,54,49,54>>,     \* 2^64
+              <<49,56,52,52,54,55,52,52,48,55,51,55,48,57,53,53,49,54,49,55>>,     \* 2^64+1
+              <<49,56,52,52,54,55,52,52,48,55,51,55,48,57,53,53,49,54,49,56>>,     \* 2^64+2
+              <<49,48,48,48,48,48,48,48,48,48,48,48,48,48,48,48,48,48,48,48,48>> } \* 10^20
 Good == Enc(<<A_a>>)
 ArrH(l) == <<R_STAR>> \o l \o CRLF
 BulkH(l) == <<R_DOLLAR>> \o l \o CRLF
